@@ -303,6 +303,9 @@ class Check:
                 hit["_n"] += 1
             else:
                 new.append(v)
+        hits_path = os.environ.get("VERIF_KNOWN_HITS")
+        if hits_path:
+            pathlib.Path(hits_path).write_text(json.dumps({"property": self.pid, "hit": [f["key"] for f in known if f.get("_n")], "unhit": [f["key"] for f in known if not f.get("_n")], "new": len(new)}))
         for f in known:
             if f.get("_n"):
                 print("KNOWN-FINDING: property=%s %s (key=%s, %d case(s) in this run)" % (self.pid, f["what"], json.dumps(f["key"], sort_keys=True), f["_n"]))
